@@ -59,12 +59,7 @@ class Check(RecordingCheck):
                     if outs[-1] == 0 and got != ref:
                         lost = [t for t in ("vals", "nodes", "edges", "args", "subs") if set(ref[t]) - set(got[t])]
                         dup = [t for t in ("vals", "nodes", "edges", "args", "subs") if len(got[t]) != len(set(got[t]))]
-                        if "args" in lost:
-                            key = K_ARG
-                        elif "subs" in lost:
-                            key = K_ROWS
-                        else:
-                            key = f"retry-changes-records:{label}:fault@{k}:lost={lost}:dup={dup}"
+                        key = f"retry-changes-records:record_call_node({label}):OperationalError@commit{k}:lost={'+'.join(lost)}:dup={'+'.join(dup)}"
                         self.findings.append(Finding(
                             key, f"record_call_node ({label}, db_retries={R}) returned normally after one OperationalError at its "
                                  f"commit attempt {k} but the committed tables differ from the fault-free run: lost {lost}, duplicated {dup}",
@@ -81,6 +76,10 @@ class Check(RecordingCheck):
             rl.close_backend(s.backend)
             os.unlink(db)
             idx = [i for i, _, site in log]
+            occ, seen_sites = {}, {}
+            for i, _, st in log:
+                occ[i] = seen_sites.get(st, 0)
+                seen_sites[st] = occ[i] + 1
             rcn = [i for i, _, site in log if "record_call_node" in site]
             chosen = sorted(set(idx[::stride]) | set(rcn))
             # the history without any fault: what it already gets wrong is not charged to a fault position
@@ -89,7 +88,7 @@ class Check(RecordingCheck):
             for which, exp in (("same", "expected_same"), ("edited", "expected_edited")):
                 if base[which] != base[exp]:
                     self.findings.append(Finding(
-                        f"stale-result:no-fault:{name}", f"workload {name} without any fault: the re-run ({'edited leaf' if which == 'edited' else 'same program'}) "
+                        f"recovery-{which}:no-fault:{name}:stale-result:{base[which][1]!r}", f"workload {name} without any fault: the re-run ({'edited leaf' if which == 'edited' else 'same program'}) "
                         f"gives {base[which]!r}, a run on an empty backend {base[exp]!r} (C03: CSE-replayed child)",
                         {"kind": "e2e", "workload": name, "plan": []}))
             for i in chosen:
@@ -100,20 +99,23 @@ class Check(RecordingCheck):
                     self.stat("e2e_fault_site", f"{kind}@{o['site']}")
                     self.stat("e2e_run1", o["run1"][0])
                     replay = {"kind": "e2e", "workload": name, "plan": [FOK] * i + [fate]}
-                    site = o["site"] or "?"
+                    # the fault point: workload, backend call stack of the commit, and which occurrence of it
+                    site = f"{o['site'] or '?'}#{occ[i]}:{name}"
+                    replay["fault_point"] = f"{kind}@{site} (commit {i})"
                     if o["fk"]:
+                        tables = sorted({f"{r[0]}->{r[2]}" for r in o["fk"]})
                         self.findings.append(Finding(
-                            f"fk-violation:{kind}@{site}", f"PRAGMA foreign_key_check reports {len(o['fk'])} row(s) after a {kind} at "
-                            f"commit {i} ({site}) of workload {name} and two recovery runs", replay))
+                            f"fk-violation:{kind}@{site}:{','.join(tables)}", f"PRAGMA foreign_key_check reports {len(o['fk'])} row(s) "
+                            f"({', '.join(tables)}) after a {kind} at commit {i} ({site}) and two recovery runs", replay))
                     if fate == FFAIL and o["run1"][0] == "died":
                         self.findings.append(Finding(
-                            f"run-dies-on-transient-error@{site}", f"one transient OperationalError at commit {i} ({site}) of workload "
-                            f"{name} is not survived although db_retries=3: the run dies with {o['run1'][1]}", replay))
+                            f"run-dies-on-transient-error@{site}:died:{o['run1'][1]}", f"one transient OperationalError at commit {i} "
+                            f"({site}) is not survived although db_retries=3: the run dies with {o['run1'][1]}", replay))
                     for which, exp in (("same", "expected_same"), ("edited", "expected_edited")):
                         if o[which] != o[exp] and o[which] != base[which]:
-                            sym = "recovery-run-dies" if o[which][0] == "died" else "stale-result"
+                            outcome = f"died:{o[which][1]}" if o[which][0] == "died" else f"stale-result:{o[which][1]!r}"
                             self.findings.append(Finding(
-                                f"{sym}:{kind}@{site}", f"after a {kind} at commit {i} ({site}) of workload {name}, the recovery run "
+                                f"recovery-{which}:{kind}@{site}:{outcome}", f"after a {kind} at commit {i} ({site}), the recovery run "
                                 f"({'edited leaf' if which == 'edited' else 'same program'}) gives {o[which]!r}, a run on an empty backend {o[exp]!r}",
                                 replay))
         return n
@@ -141,7 +143,7 @@ class Check(RecordingCheck):
         self.ob("oracle", f"implementation oracle: {n1} retried operations (faulted vs fault-free tables), {n2} fault positions of "
                           f"real workflows followed by recovery runs with and without an edit",
                 not unknown, "; ".join(f"{f.key}: {f.what}" for f in unknown[:5]))
-        repaired = [f for f in self.findings if "record_call_node" in f.key or f.key.startswith("retry-loses")]
+        repaired = [f for f in self.findings if "record_call_node" in f.key]
         if self.variant == "fixed" and repaired:
             self.ob("oracle", "repaired configuration: no record_call_node witness reproduces", False,
                     "; ".join(f.key for f in repaired[:5]))
